@@ -28,7 +28,34 @@ def bcat_work(items):
     return c06b.work(items, ID)
 
 
+# weakly squeezed entangled states: at cutoff 10 the truncated quadrature eigenstate is accurate to the 1e-6 of the oracle
+FOCK_MEAS_HISTS = [
+    (("S2(.2,.5)", (0, 1)),),
+    (("S2(.2,.5)", (1, 0)),),
+    (("Th(.3)", (0,)), ("BS(.5,.3)", (0, 1))),
+]
+
+
+def fock_meas_work(task):
+    """conditional update of the unmeasured mode on the Fock simulator (photon counting with every answer of the menu, homodyne
+    post-selected on positive, zero and negative values): the family of C06 (mc/checks/c06.py: check_fock) on entangled two-mode
+    states, reported under this property"""
+    from mc.checks import c06
+    from mc.core.ctx import Res
+
+    hist, pure = task
+    r = Res()
+    c06.check_fock(2, hist, pure, r, c06.CUT)
+    r.nt = r.n
+    r.viol = [(s.replace("C06|", "C05|fock-measurement|", 1), w, c) for s, w, c in r.viol]
+    return r
+
+
 def run(ctx):
+    n0 = ctx.n
+    for r in ctx.pmap(fock_meas_work, [(h, pure) for h in FOCK_MEAS_HISTS for pure in (True, False)]):
+        ctx.add(r)
+    ctx.stats["fock_measurement_conditional_update_cases"] = ctx.n - n0
     physics.explore(ctx, ID, configs(ctx.tier))
     physics.explore_register(ctx, ID, ctx.tier == "quick")
     # the conditional update of the unmeasured mode on NON-Gaussian states of the bosonic simulator (complex weights and means,
@@ -47,6 +74,10 @@ def run(ctx):
 
 
 def replay(case):
+    if str(case.get("kind", "")).startswith("fock") and "hist" in case and "meas" in case:
+        from mc.checks import c06
+
+        return [(s.replace("C06|", "C05|fock-measurement|", 1), w) for s, w in c06.replay(case)]
     if case.get("bosonic_cat"):
         from mc.checks import c06b
 
